@@ -16,6 +16,10 @@ from ariadne_codegen.client_generators import input_fields as IF
 from ariadne_codegen.client_generators import scalars as SC
 from ariadne_codegen.client_generators import constants as K
 
+# the statement's fixed map of built-in scalars - written down here, NOT read from the repository's constants (an oracle must
+# not move with the code it judges); the names of typing constructs (Optional, List, ...) are taken from the constants module
+SPEC_SIMPLE_TYPE_MAP = {"String": "str", "ID": "str", "Int": "int", "Boolean": "bool", "Float": "float"}
+SPEC_INPUT_SCALARS_MAP = dict(SPEC_SIMPLE_TYPE_MAP, Upload="Upload")
 SD_FIELDS = ["type_", "serialize", "parse", "import_", "graphql_name", "type_name", "parse_name", "serialize_name", "names_to_import"]
 SCALARDATA = V.REG.register(SC.ScalarData, SD_FIELDS,
                             build=lambda **f: SC.ScalarData(type_=f.get("type_name") or "T", serialize=f.get("serialize_name"),
@@ -69,7 +73,7 @@ _nm = GQ.name_of(_t)
 _quoted = V.VStr(z3.Concat(V.S('"'), V.vs(_nm), V.S('"')))
 z3.RecAddDefinition(img_in, [_t, _n, _sc],
     z3.If(GQ.is_cls(_t, GQ.SCALAR),
-          z3.If(in_strs(_nm, list(K.INPUT_SCALARS_MAP)), opt(_n, in_map(_nm, K.INPUT_SCALARS_MAP)),
+          z3.If(in_strs(_nm, list(SPEC_INPUT_SCALARS_MAP)), opt(_n, in_map(_nm, SPEC_INPUT_SCALARS_MAP)),
                 z3.If(configured(_sc, _nm), opt(_n, input_scalar_ann(get(_sc, _nm))), opt(_n, name_(K.ANY)))),
     z3.If(GQ.is_cls(_t, GQ.INPUT), opt(_n, name_(_quoted)),
     z3.If(GQ.is_cls(_t, GQ.ENUM), opt(_n, name_(_nm)),
@@ -77,7 +81,7 @@ z3.RecAddDefinition(img_in, [_t, _n, _sc],
           img_in(GQ.of_type(_t), z3.BoolVal(False), _sc))))))
 z3.RecAddDefinition(leaf_in, [_t, _sc],
     z3.If(GQ.is_cls(_t, GQ.SCALAR),
-          z3.If(z3.And(z3.Not(in_strs(_nm, list(K.INPUT_SCALARS_MAP))), configured(_sc, _nm)), _nm, S("")),
+          z3.If(z3.And(z3.Not(in_strs(_nm, list(SPEC_INPUT_SCALARS_MAP))), configured(_sc, _nm)), _nm, S("")),
     z3.If(z3.Or(GQ.is_cls(_t, GQ.INPUT), GQ.is_cls(_t, GQ.ENUM)), _nm, leaf_in(GQ.of_type(_t), _sc))))
 
 
